@@ -265,6 +265,28 @@ PROPS["C09"] = dict(
     jobs=[J("TestC09_Calls", 3000, 20000, shards=16, journal=True), J("TestC09_Regressions", 1, 1, journal=True)],
 )
 
+PROPS["C18"] = dict(
+    title="Stateful threshold-signature object is linearizable under concurrent use",
+    rule=("a key set (n <= 6, t <= 3) and a generated concurrent program: 2..16 goroutines x 1..6 operations from {TrustedAdd, VerifyAndAdd, HasShare, EnoughShares, VerifyShare, VerifyThresholdSignature, SignShare, ThresholdSignature} with valid shares, another signer's share, malformed and short shares, duplicate and out-of-range indices; "
+          "all goroutines start on a barrier; each program is executed 10 (thorough 20, replay 200) times on fresh objects under GOMAXPROCS in {2, 4, 16}, built with -race. Oracle: porcupine linearizability check of the recorded history (invocation / response stamps from one atomic counter) against the documented sequential model, "
+          "plus direct invariants after quiescence (at most t+1 shares retained, EnoughShares consistent, every returned threshold signature equals the unique group signature), plus a silent race detector. Non-trivial = at least two goroutines with >= 2 mutating calls in total; distinct by program (draw-record hash)."),
+    assumptions=["the Go scheduler, not the harness, chooses the interleavings: a window of a few instructions can survive the stress; the race detector is happens-before based and does not need the bad interleaving to occur",
+                 "a porcupine time-out (10 s) is counted as inconclusive, never as a violation"],
+    technique="property-based generation of concurrent programs (rapid) + porcupine linearizability checking + Go race detector",
+    jobs=[J("TestC18_Linearizable", 120, 600, shards=16, mode="race")],
+)
+
+PROPS["C19"] = dict(
+    title="Operations documented as read-only or thread-safe are race-free",
+    rule=("a generated mix of the listed operations run by 2..16 goroutines over shared objects: one KMAC128 hasher (ComputeHash), one expand-message hasher shared by BLS Sign / Verify / BLSVerifyPOP / SPOCKVerify / one- and many-message aggregate verification / batch verification on shared keys, ECDSA Sign and Verify on shared keys with per-goroutine hashers; "
+          "public keys are materialised before sharing. Built with -race, each mix run 4 (thorough 8) times under GOMAXPROCS in {2, 4, 16}. Oracle: no race report; every deterministic result equals the result of the same call run alone beforehand (randomized ECDSA signatures must verify); every argument buffer and the shared hashers' streams are byte-identical before and after. "
+          "Non-trivial = at least two calls sharing a hasher or key across goroutines; distinct by draw-record hash."),
+    assumptions=["the race detector does not instrument the C layer; C code is reached only through immutable Go-owned buffers, whose integrity is compared before/after",
+                 "lazy PublicKey() caching is not among the operations the property lists and is materialised before sharing"],
+    technique="property-based generation of concurrent operation mixes (rapid) under the Go race detector with a solo-run differential oracle",
+    jobs=[J("TestC19_RaceFree", 150, 500, shards=16, mode="race")],
+)
+
 
 import c15_overlay
 import c20_build
